@@ -255,6 +255,31 @@ Proof.
   cbn in H. lia.
 Qed.
 
+(* the bit layout the reader expects is the layout of the intended packing, for every length:
+   [pack_bits] (element i in bit i mod 8 of byte i / 8) reads back exactly *)
+Lemma byte_bits_of_bits l : (length l <= 8)%nat -> byte_bits (length l) (bits_byte l 0) 0 = l.
+Proof.
+  intro H.
+  do 9 (destruct l as [|? l];
+        [ repeat match goal with b : bool |- _ => destruct b end; vm_compute; reflexivity | ]).
+  cbn in H. lia.
+Qed.
+
+Lemma unpack_pack_bits : forall k v,
+  (length v <= 8 * k)%nat -> (8 * k < length v + 8)%nat ->
+  unpack_bits (length v) (pack_bits v k) = Some v.
+Proof.
+  induction k as [|k IH]; intros v H1 H2.
+  - destruct v; [reflexivity | cbn in H1; lia].
+  - cbn [pack_bits unpack_bits].
+    destruct (Nat.eqb_spec (length v) 0) as [E|E]; [lia|].
+    assert (Hf : Nat.min 8 (length v) = length (firstn 8 v)) by (rewrite firstn_length; reflexivity).
+    assert (Hs : (length v - Nat.min 8 (length v))%nat = length (skipn 8 v)) by (rewrite skipn_length; lia).
+    rewrite Hs, IH by (rewrite skipn_length; lia).
+    rewrite Hf, byte_bits_of_bits by (rewrite firstn_length; lia).
+    rewrite firstn_skipn. reflexivity.
+Qed.
+
 Lemma lor_pow2_set x n : N.testbit x n = true -> N.lor x (2 ^ n) = x.
 Proof.
   intro H. apply N.bits_inj. intro i. rewrite N.lor_spec, N.pow2_bits_eqb.
@@ -643,13 +668,6 @@ Proof.
   destruct (run_from_steps rc es init_rctx 0 [] c' H) as [out' ->]. rewrite Hr. reflexivity.
 Qed.
 
-(* number of events that count as an object for the validator: all but the end-container events *)
-Definition is_end (e : event) : bool := match e with EEnd => true | _ => false end.
-Fixpoint weight (es : list event) : N :=
-  match es with
-  | [] => 0
-  | e :: r => (if is_end e then 0 else 1) + weight r
-  end.
 Lemma weight_app a b : weight (a ++ b) = weight a + weight b.
 Proof. induction a as [|e a IH]; cbn [weight app]; [reflexivity | rewrite IH; lia]. Qed.
 
@@ -1012,11 +1030,10 @@ Section Valid.
   Proof. destruct k; cbn [width_of]; lia. Qed.
 
   Lemma elem_byte_count_bytes w n :
-    1 <= w <= 8 -> n * 64 < two64 -> elem_byte_count (8 * w) n = n * w.
+    1 <= w -> n * (8 * w) < two64 -> elem_byte_count (8 * w) n = n * w.
   Proof.
-    intros Hw Hn. unfold elem_byte_count.
+    intros Hw Hlt. unfold elem_byte_count.
     replace (8 * w =? 1) with false by (symmetry; apply N.eqb_neq; lia). cbn [andb].
-    assert (Hlt : n * (8 * w) < two64) by (unfold two64 in *; nia).
     rewrite N.mod_small by exact Hlt.
     replace (n * (8 * w)) with (n * w * 8) by lia. apply N.div_mul. lia.
   Qed.
@@ -1038,7 +1055,8 @@ Section Valid.
     - unfold validate_full_array_any.
       replace (is_stringlike_validated (at_of k)) with false by (destruct k; reflexivity).
       rewrite array_bits_at_of. rewrite H2. rewrite blen_num_bytes.
-      rewrite elem_byte_count_bytes by (try apply width_bounds; exact H1). rewrite N.eqb_refl. reflexivity.
+      pose proof (width_bounds k) as Hw.
+      rewrite elem_byte_count_bytes by (try lia; unfold two64 in *; nia). rewrite N.eqb_refl. reflexivity.
     - destruct k; reflexivity.
   Qed.
 
@@ -1065,6 +1083,607 @@ Section Valid.
     apply scalar_ev; [|reflexivity]. apply S_media; [exact H1|].
     unfold validate_full_array_any. change (is_stringlike_validated AT_Media) with false. cbv iota.
     change (array_bits AT_Media) with (Some (8 * 1)). cbv iota. rewrite H3.
-    rewrite elem_byte_count_bytes by (try lia; unfold two64 in *; lia). rewrite N.mul_1_r, N.eqb_refl. reflexivity.
+    rewrite elem_byte_count_bytes by (unfold two64 in *; lia). rewrite N.mul_1_r, N.eqb_refl. reflexivity.
   Qed.
+
+  (* ---- map keys ---- *)
+  Lemma key_of_step : forall k rk d,
+    key_of k = Some rk -> vok rc cfg d k = true ->
+    exists ke, plain cfg k = [ke] /\ key_step d ke (norm_key rk).
+  Proof.
+    apply (gval_ind' (fun k => forall rk d, key_of k = Some rk -> vok rc cfg d k = true ->
+                                exists ke, plain cfg k = [ke] /\ key_step d ke (norm_key rk)));
+      try (intros; cbn [key_of] in *; discriminate).
+    - intros b rk d H _. injection H as <-. exists (EBool b). split; [reflexivity|]. split; [reflexivity|].
+      intros n ks stk o Hf Ho. apply (S_key _ DT_Bool (RkBool b)); [reflexivity | exact Hf | exact Ho].
+    - intros z rk d H _. injection H as <-. exists (EInt z). split; [reflexivity|]. split; [reflexivity|].
+      intros n ks stk o Hf Ho. apply (S_key _ DT_Int (RkInt64 z)); [reflexivity | exact Hf | exact Ho].
+    - intros x rk d H _. injection H as <-. exists (EPosInt x). split; [reflexivity|]. split; [reflexivity|].
+      intros n ks stk o Hf Ho. apply (S_key _ DT_Int (RkUint64 x)); [reflexivity | exact Hf | exact Ho].
+    - intros s rk d H Hv. injection H as <-. exists (EStringArray AT_String s). split; [reflexivity|]. split; [reflexivity|].
+      intros n ks stk o Hf Ho. apply S_key_string; [exact Hv | exact Hf | exact Ho].
+    - intros p IH rk d H Hv. apply (IH rk d H Hv).
+    - intros p IH rk d H Hv. apply (IH rk d H Hv).
+    - intros z t rk d H _. injection H as <-. exists (ETime t). split; [reflexivity|]. split; [reflexivity|].
+      intros n ks stk o Hf Ho. apply (S_key _ DT_Time (RkTime t)); [reflexivity | exact Hf | exact Ho].
+    - intros z x rk d H _. injection H as <-. exists (EBigInt (Some x)). split; [reflexivity|]. split; [reflexivity|].
+      intros n ks stk o Hf Ho. apply (S_key _ DT_Int (RkBigInt x)); [reflexivity | exact Hf | exact Ho].
+    - intros b rk d H _. injection H as <-. exists (EUid b). split; [reflexivity|]. split; [reflexivity|].
+      intros n ks stk o Hf Ho. apply (S_key _ DT_UID (RkBytes b)); [reflexivity | exact Hf | exact Ho].
+  Qed.
+
+  (* ---- fewer enclosing containers is easier ---- *)
+  Lemma forallb_impl {A} (f g : A -> bool) l :
+    Forall (fun x => f x = true -> g x = true) l -> forallb f l = true -> forallb g l = true.
+  Proof.
+    intro H. induction H as [|x l Hx H IH]; cbn [forallb]; [trivial|].
+    intro E. apply andb_true_iff in E as [E1 E2]. rewrite (Hx E1), (IH E2). reflexivity.
+  Qed.
+
+  Lemma leb_mono d d' m : d <= d' -> (d' + 1 <=? m) = true -> (d + 1 <=? m) = true.
+  Proof. intros H E. apply N.leb_le in E. apply N.leb_le. lia. Qed.
+
+  Lemma vok_mono : forall v d d', d <= d' -> vok rc cfg d' v = true -> vok rc cfg d v = true.
+  Proof.
+    apply (gval_ind' (fun v => forall d d', d <= d' -> vok rc cfg d' v = true -> vok rc cfg d v = true));
+      try (intros; cbn [vok] in *; assumption).
+    - intros a es IH d d' Hd H. cbn [vok] in *. apply andb_true_iff in H as [H1 H2].
+      rewrite (leb_mono d d' _ Hd H1). cbn [andb].
+      revert H2. apply forallb_impl. eapply Forall_impl; [|exact IH]. intros x Hx. apply Hx. lia.
+    - intros es IH d d' Hd H. cbn [vok] in *. apply andb_true_iff in H as [H1 H2].
+      rewrite (leb_mono d d' _ Hd H1). cbn [andb].
+      revert H2. apply forallb_impl. eapply Forall_impl; [|exact IH]. intros x Hx. apply Hx. lia.
+    - intros a kvs IH d d' Hd H. cbn [vok] in *. apply andb_true_iff in H as [H H3]. apply andb_true_iff in H as [H1 H2].
+      rewrite (leb_mono d d' _ Hd H1), H3. cbn [andb]. rewrite andb_true_r.
+      revert H2. apply forallb_impl. eapply Forall_impl; [|exact IH]. intros kv [Hk Hv] E.
+      apply andb_true_iff in E as [E E3]. apply andb_true_iff in E as [E1 E2].
+      rewrite E1, (Hk (d + 1) (d' + 1)), (Hv (d + 1) (d' + 1)) by (assumption || lia). reflexivity.
+    - intros a p IH d d' Hd H. cbn [vok] in *. apply (IH d d' Hd H).
+    - intros p IH d d' Hd H. cbn [vok] in *. apply (IH d d' Hd H).
+    - intros p IH d d' Hd H. cbn [vok] in *. apply (IH d d' Hd H).
+    - intros sid fs IH d d' Hd H. cbn [vok] in *. apply andb_true_iff in H as [H H3]. apply andb_true_iff in H as [H1 H2].
+      rewrite (leb_mono d d' _ Hd H1), H3. cbn [andb]. rewrite andb_true_r.
+      revert H2. apply forallb_impl. eapply Forall_impl; [|exact IH]. intros iv Hx. apply Hx. lia.
+    - intros x ch IHx IHc d d' Hd H. cbn [vok] in *. apply andb_true_iff in H as [H H3]. apply andb_true_iff in H as [H1 H2].
+      rewrite (leb_mono d d' _ Hd H1), (IHx (d + 1) (d' + 1)) by (assumption || lia). cbn [andb].
+      destruct ch; try exact H3.
+      specialize (IHc (d) (d') Hd). cbn [vok] in IHc.
+      (* children of the node: from the slice's own monotonicity at one level less *)
+      assert (Hs : forall m, (m + 1 <=? max_container_depth rc) && forallb (vok rc cfg (m + 1)) elems = true ->
+                             forallb (vok rc cfg (m + 1)) elems = true)
+        by (intros m E; apply andb_true_iff in E as [_ E]; exact E).
+      apply Hs. apply IHc. rewrite H1, H3. reflexivity.
+  Qed.
+
+  (* ---- the main induction ---- *)
+  Definition child_v (c : gval) : Prop := forall d, vok rc cfg d c = true -> ev_ok d (plain cfg c).
+  Definition Pv (v : gval) : Prop :=
+    (forall d, vok rc cfg d v = true ->
+       ev_ok d (plain cfg v) /\ Forall (fun it : item => ev_ok (d + 1) (snd it)) (items_of cfg v))
+    /\ match v with VSlice _ es => Forall child_v es | _ => True end.
+
+  Lemma Pv_children es : Forall Pv es -> Forall child_v es.
+  Proof. intro H. eapply Forall_impl; [|exact H]. intros c [Hc _] d Hd. apply (Hc d Hd). Qed.
+
+  Lemma children_ok d es :
+    Forall child_v es -> forallb (vok rc cfg d) es = true -> Forall (ev_ok d) (map (plain cfg) es).
+  Proof.
+    intros H Hd. induction H as [|c es Hc H IH]; cbn [map]; [constructor|].
+    cbn [forallb] in Hd. apply andb_true_iff in Hd as [Hd1 Hd2].
+    constructor; [apply Hc; exact Hd1 | apply IH; exact Hd2].
+  Qed.
+
+  Lemma Forall_ins_by {A} (P : A -> Prop) key x l : P x -> Forall P l -> Forall P (ins_by key x l).
+  Proof.
+    intros Hx H. induction H as [|y l Hy H IH]; cbn [ins_by]; [constructor; [exact Hx | constructor]|].
+    destruct (key x <=? key y)%Z; constructor; try assumption. constructor; assumption.
+  Qed.
+  Lemma Forall_kept {A} (P : gitem A -> Prop) l : Forall P l -> Forall P (kept_items l).
+  Proof.
+    intro H. unfold kept_items, sorted_items.
+    assert (Hs : Forall P (sort_by gitem_order l)).
+    { induction H as [|x l Hx H IH]; cbn [sort_by fold_right]; [constructor | apply Forall_ins_by; assumption]. }
+    clear H. induction Hs as [|x s Hx Hs IH]; cbn [filter]; [constructor|].
+    destruct (snd (fst x)); [constructor|]; assumption.
+  Qed.
+
+  Lemma gofs_ok d fs :
+    Forall (fun iv => Pv (snd iv)) fs -> forallb (fun iv => vok rc cfg (d + 1) (snd iv)) fs = true ->
+    Forall (fun it : item => ev_ok (d + 1) (snd it)) (gofs cfg fs).
+  Proof.
+    intros H Hd. induction H as [|[i x] fs [Hx _] H IH]; [constructor|].
+    cbn [forallb snd] in Hd. apply andb_true_iff in Hd as [Hd1 Hd2]. cbn [snd] in Hx.
+    cbn [gofs]. apply Forall_app. split; [|apply IH; exact Hd2].
+    destruct (extractable i); [|constructor].
+    destruct (f_anon i).
+    - apply (Hx d). apply (vok_mono x d (d + 1)); [lia | exact Hd1].
+    - constructor; [|constructor]. cbn [snd]. apply (Hx (d + 1) Hd1).
+  Qed.
+
+  Lemma map_entries d kvs :
+    Forall (fun kv => Pv (fst kv) /\ Pv (snd kv)) kvs ->
+    forallb (fun kv => is_some (key_of (fst kv)) && vok rc cfg d (fst kv) && vok rc cfg d (snd kv)) kvs = true ->
+    exists ens,
+      flat_map (fun kv => plain cfg (fst kv) ++ plain cfg (snd kv)) kvs = flat_map entry_events ens
+      /\ Forall (entry_ok d) ens
+      /\ map (fun en => snd (fst en)) ens = map (fun kv => key_norm (fst kv)) kvs.
+  Proof.
+    intros H Hd. induction H as [|[k v] kvs [_ [Hv _]] H IH].
+    - exists []. repeat split; constructor.
+    - cbn [forallb fst snd] in Hd. apply andb_true_iff in Hd as [Hd1 Hd2].
+      apply andb_true_iff in Hd1 as [Hd1 Hdv]. apply andb_true_iff in Hd1 as [Hsome Hdk]. cbn [snd] in Hv.
+      destruct (IH Hd2) as [ens [E1 [E2 E3]]].
+      destruct (key_of k) as [rk|] eqn:Hk; [|discriminate].
+      destruct (key_of_step k rk d Hk Hdk) as [ke [Hpk Hks]].
+      exists ((ke, norm_key rk, plain cfg v) :: ens). repeat split.
+      + cbn [flat_map fst snd]. unfold entry_events at 1. cbn [fst snd]. rewrite Hpk, E1. reflexivity.
+      + constructor; [|exact E2]. split; [exact Hks | apply (Hv d Hdv)].
+      + cbn [map fst snd]. unfold key_norm at 1. rewrite Hk, E3. reflexivity.
+  Qed.
+
+  Lemma flat_concat_map {A} (f : A -> list event) l : flat_map f l = concat (map f l).
+  Proof. induction l as [|x l IH]; cbn; [reflexivity | rewrite IH; reflexivity]. Qed.
+
+  Lemma valid_all : forall v, Pv v.
+  Proof.
+    apply gval_ind'.
+    - intro b. split; [|exact I]. intros d _. split; [apply scalar_ev; [apply S_bool | reflexivity] | constructor].
+    - intro z. split; [|exact I]. intros d _. split; [apply scalar_ev; [apply S_int | reflexivity] | constructor].
+    - intro n. split; [|exact I]. intros d _. split; [apply scalar_ev; [apply S_posint | reflexivity] | constructor].
+    - intro w. split; [|exact I]. intros d _. split; [apply scalar_ev; [apply S_float | reflexivity] | constructor].
+    - intro b. split; [|exact I]. intros d _. split; [apply scalar_ev; [apply S_float | reflexivity] | constructor].
+    - intro s. split; [|exact I]. intros d H. split; [apply L_string; exact H | constructor].
+    - intros sk k es. split; [|exact I]. intros d H. split; [apply L_num; exact H | constructor].
+    - intros sk l. split; [|exact I]. intros d H. split; [apply L_bools; exact H | constructor].
+    - (* VSlice *) intros a es H. pose proof (Pv_children es H) as Hc. split; [|exact Hc].
+      intros d Hd. cbn [vok] in Hd. apply andb_true_iff in Hd as [Hd1 Hd2]. apply N.leb_le in Hd1.
+      split; [|constructor]. rewrite plain_list, flat_concat_map.
+      apply C_list; [exact Hd1 | apply children_ok; assumption].
+    - split; [|exact I]. intros d _. split; [apply scalar_ev; [apply S_null | reflexivity] | constructor].
+    - (* VArray *) intros es H. pose proof (Pv_children es H) as Hc. split; [|exact I].
+      intros d Hd. cbn [vok] in Hd. apply andb_true_iff in Hd as [Hd1 Hd2]. apply N.leb_le in Hd1.
+      split; [|constructor]. rewrite plain_array, flat_concat_map.
+      apply C_list; [exact Hd1 | apply children_ok; assumption].
+    - (* VMap *) intros a kvs H. split; [|exact I]. intros d Hd. cbn [vok] in Hd.
+      apply andb_true_iff in Hd as [Hd Hd3]. apply andb_true_iff in Hd as [Hd1 Hd2]. apply N.leb_le in Hd1.
+      split; [|constructor]. rewrite plain_map.
+      destruct (map_entries (d + 1) kvs H Hd2) as [ens [E1 [E2 E3]]].
+      rewrite E1. apply C_map; [exact Hd1 | exact E2 | rewrite E3; exact Hd3].
+    - split; [|exact I]. intros d _. split; [apply scalar_ev; [apply S_null | reflexivity] | constructor].
+    - intros a p [Hp _]. split; [|exact I]. intros d Hd. split; [apply (Hp d Hd) | constructor].
+    - split; [|exact I]. intros d _. split; [apply scalar_ev; [apply S_null | reflexivity] | constructor].
+    - intros p [Hp _]. split; [|exact I]. intros d Hd. split; [apply (Hp d Hd) | constructor].
+    - intros p [Hp _]. split; [|exact I]. intros d Hd. split; [apply (Hp d Hd) | constructor].
+    - split; [|exact I]. intros d _. split; [apply scalar_ev; [apply S_null | reflexivity] | constructor].
+    - (* VStruct *) intros sid fs H. split; [|exact I]. intros d Hd. cbn [vok] in Hd.
+      apply andb_true_iff in Hd as [Hd Hd3]. apply andb_true_iff in Hd as [Hd1 Hd2]. apply N.leb_le in Hd1.
+      pose proof (gofs_ok d fs H Hd2) as Hits.
+      rewrite items_struct. split; [|exact Hits].
+      pose proof (Forall_kept _ _ Hits) as Hk.
+      rewrite plain_struct. unfold kept_names in Hd3. rewrite items_struct in Hd3.
+      destruct (find_record (c_records cfg) sid) as [r|] eqn:Hf.
+      + apply andb_true_iff in Hd3 as [Hid Hlen]. apply Nat.eqb_eq in Hlen. rewrite map_length in Hlen.
+        unfold record_events. rewrite flat_concat_map.
+        apply C_record; [exact Hd1 | exact Hid | | ].
+        * rewrite (Hrt sid r Hf). rewrite <- Hlen. unfold len. f_equal. f_equal. symmetry. apply map_length.
+        * clear Hlen. induction Hk as [|x K Hx Hk IH]; cbn [map]; constructor; assumption.
+      + apply andb_true_iff in Hd3 as [Hnames Hfresh].
+        unfold struct_events.
+        set (K := kept_items (gofs cfg fs)) in *.
+        set (ens := map (fun it : item => (EStringArray AT_String (field_name cfg (fst (fst it))), NkString (field_name cfg (fst (fst it))), snd it)) K).
+        assert (E1 : flat_map (fun it : finfo * bool * list event => EStringArray AT_String (field_name cfg (fst (fst it))) :: snd it) K
+                     = flat_map entry_events ens).
+        { subst ens. clear. induction K as [|x K IH]; [reflexivity|]. cbn [flat_map map]. rewrite IH. reflexivity. }
+        rewrite E1. apply C_map; [exact Hd1 | | ].
+        * subst ens. clear E1 Hfresh. induction Hk as [|x K Hx Hk IH]; cbn [map]; [constructor|].
+          cbn [map forallb] in Hnames. apply andb_true_iff in Hnames as [Hn1 Hn2].
+          constructor; [|apply IH; exact Hn2].
+          split; [|exact Hx]. cbn [fst snd]. split; [reflexivity|].
+          intros n ks stk o Hfr Ho. apply S_key_string; [exact Hn1 | exact Hfr | exact Ho].
+        * subst ens. rewrite map_map. cbn [fst snd]. rewrite map_map in Hfresh. exact Hfresh.
+    - intros z t. split; [|exact I]. intros d _. split; [apply scalar_ev; [apply S_time | reflexivity] | constructor].
+    - intros z t. split; [|exact I]. intros d H. split; [apply (L_url d z t H) | constructor].
+    - intros z x. split; [|exact I]. intros d _. split; [apply scalar_ev; [apply S_bigint | reflexivity] | constructor].
+    - intros z x. split; [|exact I]. intros d _. split; [apply scalar_ev; [apply S_bigfloat | reflexivity] | constructor].
+    - intros z x. split; [|exact I]. intros d _. split; [apply scalar_ev; [apply S_bigdecimal | reflexivity] | constructor].
+    - intros z x. split; [|exact I]. intros d _. split; [apply scalar_ev; [apply S_decimal | reflexivity] | constructor].
+    - intro b. split; [|exact I]. intros d _. split; [apply scalar_ev; [apply S_uid | reflexivity] | constructor].
+    - intros z mt dt. split; [|exact I]. intros d H. split; [apply (L_media d z mt dt H) | constructor].
+    - (* VNode *) intros x ch [Hx _] [_ Hch]. split; [|exact I]. intros d Hd. cbn [vok] in Hd.
+      apply andb_true_iff in Hd as [Hd Hd3]. apply andb_true_iff in Hd as [Hd1 Hd2]. apply N.leb_le in Hd1.
+      split; [|constructor].
+      set (es := match ch with VSlice _ es => es | _ => [] end).
+      assert (Hes : Forall child_v es) by (subst es; destruct ch; try constructor; exact Hch).
+      assert (Hdes : forallb (vok rc cfg (d + 1)) es = true) by (subst es; destruct ch; try reflexivity; exact Hd3).
+      assert (Hp : plain cfg (VNode x ch) = ENode :: plain cfg x ++ concat (map (plain cfg) es) ++ [EEnd])
+        by (subst es; rewrite <- flat_concat_map; destruct ch; reflexivity).
+      rewrite Hp. apply C_node; [exact Hd1 | apply (Hx (d + 1) Hd2) | apply children_ok; assumption].
+    - (* VEdge *) intros a b c _ _ _. split; [|exact I]. intros d Hd. discriminate Hd.
+  Qed.
+
 End Valid.
+
+(* ---- the head of the document and whole documents ---- *)
+
+Section ValidDoc.
+  Variable rc : rcfg.
+  Variable cfg : icfg.
+
+  (* contexts of a document: everything but these six fields stays as in init_rctx *)
+  Definition W (rts : list (bytes * N)) (rname : bytes) (cu : entry) (stk : list entry) (d o : N) : rctx :=
+    {| cur := cu; stack := stk; depth := d; objects := o; rectypes := rts; rectype_name := rname;
+       arr_type := 0; more_chunks := false; built := []; arr_total := 0; chunk_expected := 0; chunk_actual := 0;
+       utf8_rem := []; arr_validator := VNothing; marker_id := []; marked := []; fwd := []; refcount := 0 |}.
+  Definition TL : entry := E RTopLevel DT_Invalid 0 None [].
+
+  Lemma W_U rts rname cu stk d o cu0 stk0 d0 o0 :
+    W rts rname cu stk d o = U (W rts rname cu0 stk0 d0 o0) cu stk d o.
+  Proof. reflexivity. Qed.
+
+  Lemma bytes_eqb_refl b : bytes_eqb b b = true.
+  Proof. apply bytes_eqb_eq. reflexivity. Qed.
+
+  Lemma alookup_aremove_other n k l : bytes_eqb n k = false -> alookup n (aremove k l) = alookup n l.
+  Proof.
+    intro H. induction l as [|[k' v'] l IH]; [reflexivity|]. cbn [aremove alookup].
+    destruct (bytes_eqb k k') eqn:E.
+    - apply bytes_eqb_eq in E. subst k'. rewrite H. exact IH.
+    - cbn [alookup]. rewrite IH. reflexivity.
+  Qed.
+  Lemma alookup_aset_same k v l : alookup k (aset k v l) = Some v.
+  Proof. unfold aset. cbn [alookup]. rewrite bytes_eqb_refl. reflexivity. Qed.
+  Lemma alookup_aset_other n k v l : bytes_eqb n k = false -> alookup n (aset k v l) = alookup n l.
+  Proof. intro H. unfold aset. cbn [alookup]. rewrite H. apply alookup_aremove_other. exact H. Qed.
+
+  (* the keys of one record type *)
+  Lemma rectype_keys_run rts name keys :
+    forall n ks o,
+      forallb (string_ok rc) keys = true -> keys_fresh ks (map NkString keys) = true ->
+      o + len keys <= max_object_count rc ->
+      steps rc (W rts name (E RRecordType DT_RecordType n None ks) [TL] 1 o) (map (fun k => EStringArray AT_String k) keys)
+      = Some (W rts name (E RRecordType DT_RecordType (n + len keys) None (rev (map NkString keys) ++ ks)) [TL] 1 (o + len keys)).
+  Proof.
+    induction keys as [|k keys IH]; intros n ks o Hs Hf Ho.
+    - cbn [map steps rev app]. unfold len. cbn [length]. rewrite !N.add_0_r. reflexivity.
+    - cbn [map forallb keys_fresh] in *. rewrite len_cons in *.
+      apply andb_true_iff in Hs as [Hs1 Hs2]. apply andb_true_iff in Hf as [Hf1 Hf2]. apply negb_true_iff in Hf1.
+      cbn [steps]. unfold rstep. change (array_api_ok AT_String) with true. cbv iota.
+      rewrite (W_U rts name _ _ _ _ TL [] 0 0).
+      rewrite notify_ok by (try exact I; lia). cbn [obind]. unfold call_current, call_fuel.
+      cbn [call_rule exec_prims exec_prim dispatch cur U E e_rule a_arrty a_data array_args].
+      change (assert_array_type AT_String Allow_Keyable) with true. cbn [andb].
+      change (validate_full_array_stringlike rc AT_String k) with (string_ok rc k). rewrite Hs1.
+      unfold key_from_array. change (AT_String =? AT_String) with true. cbv iota.
+      unfold notify_key. cbn [cur U E e_keys norm_key]. rewrite Hf1.
+      match goal with |- steps rc ?c _ = _ =>
+        change c with (W rts name (E RRecordType DT_RecordType (n + 1) None (NkString k :: ks)) [TL] 1 (o + 1)) end.
+      rewrite IH by (try assumption; lia).
+      cbn [rev]. rewrite <- app_assoc. cbn [app]. f_equal. f_equal; [f_equal|]; lia.
+  Qed.
+
+  Lemma rectype_run r rts rname o :
+    validate_identifier rc (rt_name r) = true -> alookup (rt_name r) rts = None ->
+    forallb (string_ok rc) (decl_keys cfg r) = true -> keys_fresh [] (map NkString (decl_keys cfg r)) = true ->
+    1 <= max_container_depth rc -> o + 1 + len (decl_keys cfg r) <= max_object_count rc ->
+    steps rc (W rts rname TL [] 0 o) (rectype_events cfg r)
+    = Some (W (aset (rt_name r) (len (decl_keys cfg r)) rts) (rt_name r) TL [] 0 (o + 1 + len (decl_keys cfg r))).
+  Proof.
+    intros Hid Hnone Hs Hf Hd Ho. unfold rectype_events. set (keys := decl_keys cfg r) in *. set (name := rt_name r) in *.
+    cbn [steps].
+    (* the record type begins *)
+    assert (H1 : rstep rc (W rts rname TL [] 0 o) (ERecordType name)
+                 = Some (W rts name (E RRecordType DT_RecordType 0 None []) [TL] 1 (o + 1), [ERecordType name])).
+    { unfold TL. unfold rstep, notify_new_object. cbn [cur W E e_count e_expected objects andb].
+      replace (max_object_count rc <? o + 1) with false by (symmetry; apply N.ltb_ge; lia).
+      cbn [obind]. rewrite Hid. unfold call_current, call_fuel.
+      cbn [call_rule exec_prims exec_prim dispatch cur set_objects set_cur e_rule stack W E].
+      unfold begin_container. cbn [depth set_objects set_cur W].
+      replace (max_container_depth rc <? 0 + 1) with false by (symmetry; apply N.ltb_ge; lia).
+      reflexivity. }
+    rewrite H1. rewrite steps_app.
+    rewrite (rectype_keys_run rts name keys 0 [] (o + 1)) by (try assumption; lia).
+    (* the record type ends *)
+    cbn [steps]. unfold rstep, call_current, call_fuel. cbn [cur W E e_rule].
+    match goal with |- match (match call_rule 6 rc RRecordType MEnd no_args ?c with _ => _ end) with _ => _ end = _ =>
+      assert (H3 : call_rule 6 rc RRecordType MEnd no_args c
+                   = Some (W (aset name (0 + len keys) rts) name TL [] 0 (o + 1 + len keys))) end.
+    { match goal with |- call_rule 6 rc RRecordType MEnd no_args ?c = _ =>
+        change (call_rule 6 rc RRecordType MEnd no_args c)
+          with (match end_container (call_rule 5 rc) false c with Some c1 => Some c1 | None => None end) end.
+      unfold end_container. cbn [depth cur W E e_expected e_count e_dtype rectype_name rectypes].
+      change (1 =? 0) with false. change (DT_RecordType =? DT_RecordType) with true. cbv iota.
+      rewrite Hnone. reflexivity. }
+    rewrite H3. rewrite N.add_0_l. reflexivity.
+  Qed.
+
+  Definition inv_seen (seen : list bytes) (rts : list (bytes * N)) : Prop :=
+    forall n, existsb (bytes_eqb n) seen = false -> alookup n rts = None.
+
+  Definition rt_ok (r : rectype) : bool :=
+    validate_identifier rc (rt_name r) && forallb (string_ok rc) (decl_keys cfg r)
+    && keys_fresh [] (map NkString (decl_keys cfg r)).
+
+  Lemma weight_rectype r : weight (rectype_events cfg r) = 1 + len (decl_keys cfg r).
+  Proof.
+    unfold rectype_events. cbn [weight is_end]. rewrite weight_app. cbn [weight is_end].
+    assert (H : forall ks, weight (map (fun k => EStringArray AT_String k) ks) = len ks).
+    { induction ks as [|k ks IH]; [reflexivity|]. cbn [map weight is_end]. rewrite IH, len_cons. lia. }
+    rewrite H. lia.
+  Qed.
+
+  Lemma header_run l :
+    forall rts rname o seen,
+      names_fresh seen (map rt_name l) = true -> inv_seen seen rts -> forallb rt_ok l = true ->
+      1 <= max_container_depth rc -> o + weight (flat_map (rectype_events cfg) l) <= max_object_count rc ->
+      exists rts' rname',
+        steps rc (W rts rname TL [] 0 o) (flat_map (rectype_events cfg) l)
+        = Some (W rts' rname' TL [] 0 (o + weight (flat_map (rectype_events cfg) l)))
+        /\ (forall r, In r l -> alookup (rt_name r) rts' = Some (len (decl_keys cfg r)))
+        /\ (forall n v, alookup n rts = Some v -> alookup n rts' = Some v).
+  Proof.
+    induction l as [|r l IH]; intros rts rname o seen Hn Hinv Hok Hd Ho.
+    - exists rts, rname. cbn [flat_map steps weight]. rewrite N.add_0_r. repeat split; [intros r []| auto].
+    - cbn [map names_fresh forallb flat_map] in *. rewrite weight_app, weight_rectype in *.
+      apply andb_true_iff in Hn as [Hn1 Hn2]. apply negb_true_iff in Hn1.
+      apply andb_true_iff in Hok as [Hr Hok]. unfold rt_ok in Hr.
+      apply andb_true_iff in Hr as [Hr Hr3]. apply andb_true_iff in Hr as [Hr1 Hr2].
+      pose proof (Hinv _ Hn1) as Hnone.
+      rewrite steps_app. rewrite (rectype_run r rts rname o) by (try assumption; lia).
+      set (rts1 := aset (rt_name r) (len (decl_keys cfg r)) rts).
+      assert (Hinv1 : inv_seen (rt_name r :: seen) rts1).
+      { intros n Hs. cbn [existsb] in Hs. apply orb_false_iff in Hs as [Hs1 Hs2].
+        subst rts1. rewrite alookup_aset_other by exact Hs1. apply Hinv. exact Hs2. }
+      destruct (IH rts1 (rt_name r) (o + 1 + len (decl_keys cfg r)) (rt_name r :: seen) Hn2 Hinv1 Hok Hd) as [rts' [rname' [Hs [Hl Hp]]]]; [lia|].
+      exists rts', rname'. split; [|split].
+      + rewrite Hs. f_equal. f_equal. lia.
+      + intros x [<-|Hx]; [|apply Hl; exact Hx]. apply Hp. subst rts1. apply alookup_aset_same.
+      + intros n v Hv. apply Hp. subst rts1.
+        destruct (bytes_eqb n (rt_name r)) eqn:E.
+        * apply bytes_eqb_eq in E. subst n. rewrite Hnone in Hv. discriminate.
+        * rewrite alookup_aset_other by exact E. exact Hv.
+  Qed.
+
+  Lemma In_ins_rt x y l : In x (ins_rt y l) <-> x = y \/ In x l.
+  Proof.
+    induction l as [|z l IH]; cbn [ins_rt In].
+    - split; [intros [<-|[]]; left; reflexivity | intros [->|[]]; left; reflexivity].
+    - destruct (bytes_ltb (rt_name z) (rt_name y)); cbn [In]; [rewrite IH|]; split; intro H; intuition congruence.
+  Qed.
+  Lemma In_sort_records x l : In x (sort_records l) <-> In x l.
+  Proof.
+    induction l as [|y l IH]; cbn [sort_records fold_right In]; [tauto|].
+    fold (sort_records l). rewrite In_ins_rt, IH. split; intro H; intuition congruence.
+  Qed.
+
+  (* iterate_valid *)
+  Theorem iterate_valid root :
+    expected_version rc = 0 -> c_recursion cfg = false -> head_ok rc cfg = true ->
+    match root with
+    | Some v => vok rc cfg 0 v = true /\ weight (rectypes_events cfg ++ plain cfg v) <= max_object_count rc
+    | None => 1 <= max_object_count rc
+    end ->
+    accepts_document rc (iterate cfg root) = true.
+  Proof.
+    intros Hver Hrec Hhead Hroot.
+    assert (Hbegin : forall rest, steps rc init_rctx (EBeginDoc :: EVersion 0 :: rest) = steps rc (W [] [] TL [] 0 0) rest).
+    { intro rest. cbn [steps].
+      change (rstep rc init_rctx EBeginDoc) with (Some (set_rule init_rctx RVersion, [EBeginDoc])). cbv iota beta.
+      unfold rstep, call_current, call_fuel. cbn [call_rule exec_prims exec_prim dispatch cur set_rule set_cur init_rctx mk_entry e_rule a_version].
+      rewrite Hver. reflexivity. }
+    destruct root as [v|].
+    - destruct Hroot as [Hv Hw].
+      unfold iterate, iterate_outcome, value_outcome. rewrite Hrec. cbn [fst].
+      unfold head_ok in Hhead. apply andb_true_iff in Hhead as [Hhead H3]. apply andb_true_iff in Hhead as [H1 H2].
+      apply N.leb_le in H1.
+      assert (Hok : forallb rt_ok (sort_records (c_records cfg)) = true).
+      { apply forallb_forall. intros r Hr. apply (proj1 (In_sort_records _ _)) in Hr. rewrite forallb_forall in H3. apply (H3 r Hr). }
+      rewrite weight_app in Hw. unfold rectypes_events in *.
+      destruct (header_run (sort_records (c_records cfg)) [] [] 0 [] H2 (fun n _ => eq_refl) Hok H1) as [rts' [rname' [Hs [Hl _]]]]; [lia|].
+      rewrite N.add_0_l in Hs.
+      set (c0 := W rts' rname' TL [] 0 0).
+      assert (Hrt : forall sid r, find_record (c_records cfg) sid = Some r ->
+                                  alookup (rt_name r) (rectypes c0) = Some (N.of_nat (length (decl_keys cfg r)))).
+      { intros sid r Hf. apply find_record_In in Hf. apply (proj2 (In_sort_records _ _)) in Hf. apply (Hl r Hf). }
+      destruct (valid_all rc c0 cfg Hrt v) as [Hval _]. destruct (Hval 0 Hv) as [Hev _].
+      set (hw := weight (flat_map (rectype_events cfg) (sort_records (c_records cfg)))) in *.
+      specialize (Hev RTopLevel DT_Invalid 0 None [] [] hw I I Hw).
+      eapply accepts_steps.
+      + rewrite Hbegin. rewrite steps_app, Hs. rewrite steps_app.
+        change (W rts' rname' TL [] 0 hw) with (U c0 TL [] 0 hw).
+        unfold TL at 1. rewrite Hev. cbn [steps next]. reflexivity.
+      + reflexivity.
+    - unfold iterate, iterate_outcome. cbn [fst].
+      eapply accepts_steps.
+      + rewrite Hbegin. cbn [steps].
+        change (W [] [] TL [] 0 0) with (U (W [] [] TL [] 0 0) TL [] 0 0). unfold TL at 2.
+        destruct (S_null rc (W [] [] TL [] 0 0) RTopLevel DT_Invalid 0 None [] [] 0 0 I I) as [out Hn]; [lia|].
+        rewrite Hn. cbn [next]. reflexivity.
+      + reflexivity.
+  Qed.
+End ValidDoc.
+
+(* ========================================================================= *)
+(* Part 4: the property in full, its refutations, the fragment that holds     *)
+
+(* For any supported value and configuration: the iteration completes, the validator accepts the
+   events, and the events describe exactly the value (with recursion support: after replacing
+   references by what they refer to, for values without cycles). *)
+Definition full_property : Prop :=
+  forall (rc : rcfg) (cfg : icfg) (root : option gval),
+    expected_version rc = 0 -> head_ok rc cfg = true -> records_ok cfg = true ->
+    match root with
+    | Some v => supported rc cfg 0 v = true
+                /\ (c_recursion cfg = false -> acyclic [] v = true)
+                /\ weight (iterate cfg root) <= max_object_count rc
+    | None => 1 <= max_object_count rc
+    end ->
+    snd (iterate_outcome cfg root) = true
+    /\ accepts_document rc (iterate cfg root) = true
+    /\ (if c_recursion cfg
+        then match root with
+             | Some v => acyclic [] v = true -> described_rec (iterate cfg root) = Some (canon cfg v)
+             | None => True
+             end
+        else read_doc (iterate cfg root) = Some (canon_root cfg root)).
+
+Definition cfg_plain : icfg := mkCfg true false OEmpty [].
+Definition cfg_rec : icfg := mkCfg true true OEmpty [].
+
+(* an instance of the full property at the default limits *)
+Definition instance_holds (cfg : icfg) (v : gval) : Prop :=
+  snd (iterate_outcome cfg (Some v)) = true
+  /\ accepts_document default_rcfg (iterate cfg (Some v)) = true
+  /\ (if c_recursion cfg
+      then acyclic [] v = true -> described_rec (iterate cfg (Some v)) = Some (canon cfg v)
+      else read_doc (iterate cfg (Some v)) = Some (canon cfg v)).
+
+Lemma full_instance cfg v :
+  full_property -> head_ok default_rcfg cfg = true -> records_ok cfg = true ->
+  supported default_rcfg cfg 0 v = true -> acyclic [] v = true ->
+  weight (iterate cfg (Some v)) <= max_object_count default_rcfg ->
+  instance_holds cfg v.
+Proof.
+  intros F H1 H2 H3 H4 H5. apply (F default_rcfg cfg (Some v) eq_refl H1 H2). auto.
+Qed.
+
+Ltac refute_with cfg v :=
+  let F := fresh in
+  intro F;
+  assert (Hi : instance_holds cfg v) by (apply (full_instance cfg v F); vm_compute; congruence);
+  destruct Hi as [Hc [Ha Hd]]; vm_compute in Hc, Ha, Hd;
+  try discriminate Hc; try discriminate Ha; try (specialize (Hd eq_refl)); try discriminate Hd; try congruence.
+
+(* defect: []bool longer than 8 — the ninth element is emitted as a copy of the first *)
+Definition w_bool9 : gval := VBools SSlice [false; false; false; false; false; false; false; false; true].
+Lemma bool9_misdescribed :
+  read_doc (iterate cfg_plain (Some w_bool9)) = Some (DBits [false; false; false; false; false; false; false; false; false])
+  /\ canon cfg_plain w_bool9 = DBits [false; false; false; false; false; false; false; false; true].
+Proof. split; vm_compute; reflexivity. Qed.
+Lemma full_refuted_bool_slice : ~ full_property.
+Proof. refute_with cfg_plain w_bool9. Qed.
+
+(* defect: types.Edge gets no end-container event *)
+Definition w_edge : gval := VEdge (VIface (VInt 1)) (VIface (VInt 2)) (VIface (VInt 3)).
+Lemma edge_rejected :
+  supported default_rcfg cfg_plain 0 w_edge = true
+  /\ accepts_document default_rcfg (iterate cfg_plain (Some w_edge)) = false.
+Proof. split; vm_compute; reflexivity. Qed.
+Lemma full_refuted_edge : ~ full_property.
+Proof. refute_with cfg_plain w_edge. Qed.
+
+(* defect: a record omits an empty field its record type declares *)
+Definition f_a : finfo := mkF [65] true false ODefault 9223372036854775807%Z.
+Definition f_b : finfo := mkF [66] true false ODefault 9223372036854775807%Z.
+Definition cfg_record : icfg := mkCfg true false OEmpty [mkRT [114] 1 [(f_a, VInt 0); (f_b, VString [])]].
+Definition w_record : gval := VStruct 1 [(f_a, VInt 1); (f_b, VString [])].
+Lemma record_rejected :
+  head_ok default_rcfg cfg_record = true /\ supported default_rcfg cfg_record 0 w_record = true
+  /\ iterate cfg_record (Some w_record)
+     = [EBeginDoc; EVersion 0; ERecordType [114]; EStringArray AT_String [97]; EStringArray AT_String [98]; EEnd;
+        ERecord [114]; EInt 1; EEnd; EEndDoc]
+  /\ accepts_document default_rcfg (iterate cfg_record (Some w_record)) = false.
+Proof. repeat split; vm_compute; reflexivity. Qed.
+Lemma full_refuted_record : ~ full_property.
+Proof. refute_with cfg_record w_record. Qed.
+
+(* defect: a signalling float32 NaN is emitted quiet *)
+Definition w_snan : gval := VF32 2141192193.          (* 0x7fa00001 *)
+Lemma snan_quieted :
+  read_doc (iterate cfg_plain (Some w_snan)) = Some (DScalar (EFloat 9222246137484804096))   (* 0x7ffc000020000000 *)
+  /\ canon cfg_plain w_snan = DScalar (EFloat 9219994337671118848).                           (* 0x7ff4000020000000 *)
+Proof. split; vm_compute; reflexivity. Qed.
+Lemma full_refuted_float32_snan : ~ full_property.
+Proof. refute_with cfg_plain w_snan. Qed.
+
+(* defects under recursion support *)
+(* an array iterated as a list: TryAddLocalReference panics (reflect.Value.Pointer on an array) *)
+Definition w_array : gval := VArray [VString [97]].
+Lemma array_panics : iterate_outcome cfg_rec (Some w_array) = ([EBeginDoc; EVersion 0], false).
+Proof. vm_compute. reflexivity. Qed.
+Lemma full_refuted_array_recursion : ~ full_property.
+Proof. refute_with cfg_rec w_array. Qed.
+
+(* a shared pointer to a shared pointer: marker directly followed by a marker *)
+Definition w_ptrptr : gval :=
+  VSlice 1 [VIface (VPtr 2 (VPtr 3 (VInt 0))); VIface (VPtr 2 (VPtr 3 (VInt 0))); VIface (VPtr 3 (VInt 0))].
+Lemma ptrptr_rejected :
+  iterate cfg_rec (Some w_ptrptr)
+  = [EBeginDoc; EVersion 0; EList; EMarker [48]; EMarker [49]; EInt 0; ERefLocal [48]; ERefLocal [49]; EEnd; EEndDoc]
+  /\ accepts_document default_rcfg (iterate cfg_rec (Some w_ptrptr)) = false.
+Proof. split; vm_compute; reflexivity. Qed.
+Lemma full_refuted_marker_on_marker : ~ full_property.
+Proof. refute_with cfg_rec w_ptrptr. Qed.
+
+(* a marked container inside a marked container: the validator keeps one marker id, the inner
+   marker overwrites the outer one *)
+Definition f_n : finfo := mkF [78] true false ONever 9223372036854775807%Z.
+Definition w_inner : gval := VPtr 2 (VStruct 1 [(f_n, VNilPtr)]).
+Definition w_outer : gval := VPtr 3 (VStruct 1 [(f_n, w_inner)]).
+Definition w_nested : gval := VSlice 1 [VIface w_outer; VIface w_outer; VIface w_inner].
+Lemma nested_markers_rejected :
+  supported default_rcfg cfg_rec 0 w_nested = true
+  /\ accepts_document default_rcfg (iterate cfg_rec (Some w_nested)) = false
+  /\ described_rec (iterate cfg_rec (Some w_nested)) = Some (canon cfg_rec w_nested).
+Proof. repeat split; vm_compute; reflexivity. Qed.
+Lemma full_refuted_nested_markers : ~ full_property.
+Proof. refute_with cfg_rec w_nested. Qed.
+
+(* two slices that start at the same address with different lengths are taken for one object *)
+Definition w_same_base : gval :=
+  VSlice 1 [VIface (VSlice 2 [VIface (VInt 1)]); VIface (VSlice 2 [VIface (VInt 1); VIface (VInt 2); VIface (VInt 3)])].
+Lemma same_base_misdescribed :
+  accepts_document default_rcfg (iterate cfg_rec (Some w_same_base)) = true
+  /\ described_rec (iterate cfg_rec (Some w_same_base)) = Some (DList [DList [DScalar (EInt 1)]; DList [DScalar (EInt 1)]])
+  /\ canon cfg_rec w_same_base = DList [DList [DScalar (EInt 1)]; DList [DScalar (EInt 1); DScalar (EInt 2); DScalar (EInt 3)]].
+Proof. repeat split; vm_compute; reflexivity. Qed.
+Lemma full_refuted_same_base_slices : ~ full_property.
+Proof. refute_with cfg_rec w_same_base. Qed.
+
+(* ---- the fragment that holds: no recursion support, [vok], [descr] ---- *)
+
+Lemma weight_iterate_plain cfg v :
+  c_recursion cfg = false ->
+  weight (iterate cfg (Some v)) = 3 + weight (rectypes_events cfg ++ plain cfg v).
+Proof.
+  intro H. unfold iterate, iterate_outcome, value_outcome. rewrite H. cbn [fst weight is_end].
+  rewrite !weight_app. cbn [weight is_end]. lia.
+Qed.
+
+Theorem partial_property :
+  forall (rc : rcfg) (cfg : icfg) (root : option gval),
+    expected_version rc = 0 -> head_ok rc cfg = true -> records_ok cfg = true ->
+    c_recursion cfg = false ->
+    match root with
+    | Some v => vok rc cfg 0 v = true /\ descr cfg v = true
+                /\ weight (iterate cfg root) <= max_object_count rc
+    | None => 1 <= max_object_count rc
+    end ->
+    snd (iterate_outcome cfg root) = true
+    /\ accepts_document rc (iterate cfg root) = true
+    /\ read_doc (iterate cfg root) = Some (canon_root cfg root).
+Proof.
+  intros rc cfg root Hver Hhead Hrec Hnorec Hroot. split; [|split].
+  - destruct root as [v|]; [|reflexivity]. unfold iterate_outcome, value_outcome. rewrite Hnorec. reflexivity.
+  - apply iterate_valid; try assumption. destruct root as [v|]; [|exact Hroot].
+    destruct Hroot as [Hv [_ Hw]]. split; [exact Hv|]. rewrite weight_iterate_plain in Hw by exact Hnorec. lia.
+  - apply iterate_describes; try assumption. destruct root as [v|]; [|exact I]. apply Hroot.
+Qed.
+
+(* the hypotheses are satisfiable: a struct with tags, nested containers, a registered record *)
+Definition f_name : finfo := mkF [85;115;101;114;73;68] true false ONever 1%Z.            (* UserID, order 1 *)
+Definition f_list : finfo := mkF [76] true false OEmpty 9223372036854775807%Z.
+Definition f_rec : finfo := mkF [82] true false ONever 9223372036854775807%Z.
+Definition ex_cfg : icfg := mkCfg true false OEmpty [mkRT [114] 7 [(f_a, VInt 0); (f_b, VString [])]].
+Definition ex_value : gval :=
+  VStruct 1 [(f_list, VSlice 1 [VIface (VInt (-5)); VIface (VString [104; 105]); VNilIface;
+                               VIface (VBools SSlice [true; false; true]);
+                               VIface (VNum SSlice AI16 [-2; 300]%Z);
+                               VIface (VMap 2 [(VString [107], VF64 4607182418800017408); (VString [108], VNilPtr)]);
+                               VIface (VNode (VIface (VUint 1)) (VSlice 3 [VIface (VUint 2)]))]);
+             (f_name, VUint 7);
+             (f_rec, VStruct 7 [(f_a, VInt 1); (f_b, VString [120])])].
+Lemma example_in_fragment :
+  head_ok default_rcfg ex_cfg = true /\ records_ok ex_cfg = true
+  /\ vok default_rcfg ex_cfg 0 ex_value = true /\ descr ex_cfg ex_value = true
+  /\ weight (iterate ex_cfg (Some ex_value)) <= max_object_count default_rcfg.
+Proof. repeat split; vm_compute; congruence. Qed.
